@@ -160,10 +160,270 @@ impl Check for LoanProgramsEnumerated {
     }
 }
 
+
+// ---------------------------------------------------------------------------------------------
+// router loans over several vaults in one transaction
+// ---------------------------------------------------------------------------------------------
+
+/// One router FlashLoan naming up to three different vault assets (native, native, cw20) in a generated
+/// order; the payload pays the router generated proceeds per asset (on / around the fees of that loan).
+#[derive(Clone, Debug, Serialize, Deserialize)]
+pub struct MultiCase {
+    /// fee triple (protocol, flash loan, burn) per vault, 18-decimal atomics
+    pub fees: [[Uint128; 3]; 3],
+    pub deposits: [Uint128; 3],
+    /// the loans of the transaction: (vault index, fraction of its balance / 65536)
+    pub loans: Vec<(u8, u16)>,
+    /// proceeds per loan: 0 = one below the fees, 1 = exactly the fees, 2 = one above, otherwise fees + k
+    pub proceeds: Vec<u16>,
+    /// payload order: pay the router in loan order (false) or in reverse (true)
+    pub reverse_payload: bool,
+    /// an earlier, plain router loan on each vault first (so that ledgers and counters are not fresh)
+    pub warm_up: bool,
+}
+
+pub struct RouterMultiAsset;
+
+impl Check for RouterMultiAsset {
+    type Case = MultiCase;
+    fn name(&self) -> &'static str {
+        "router_multi_asset_loan"
+    }
+    fn rule(&self) -> &'static str {
+        "three vaults (two native assets, one cw20) with generated fee triples behind one vault router; one FlashLoan naming 1..3 DIFFERENT vault assets in a generated order with loan sizes from 1 unit to the whole vault balance; the payload makes a purse pay the router, per asset, proceeds one below / exactly / one above / well above that loan's fees, in loan order or reversed; optionally after a warm-up loan on every vault. Oracle: a rejected transaction leaves the world snapshot unchanged; proceeds below the fees of any loan => rejected; a single-asset loan whose proceeds cover its fees => accepted (a loan naming several assets may be refused outright — this code base's router does so — but if it is accepted it is judged like any other; half of the multi-asset cases therefore reach the router's multi-asset settlement the way a borrower can: a single-asset loan whose payload makes the router borrow from the second vault with a hand-made NextLoan callback chaining the remaining assets); accepted => per vault: balance + burn fee == balance before + quoted payback - principal (the vault received exactly the quote), pending ledger grew by floor(protocol share*loan), burn fee left circulation, loan counter 0; the router holds nothing of any asset; the initiator received proceeds - fees of every asset. Non-trivial: an accepted transaction."
+    }
+    fn strategy(&self, _tier: Tier) -> BoxedStrategy<MultiCase> {
+        (
+            [fee3(), fee3(), fee3()],
+            [gen::amount(10_000, 1u128 << 90), gen::amount(10_000, 1u128 << 90), gen::amount(10_000, 1u128 << 90)],
+            Just(vec![0u8, 1, 2]).prop_shuffle(),
+            1usize..=3,
+            prop::collection::vec(prop_oneof![2 => Just(1u16), 2 => Just(65535u16), 3 => any::<u16>()], 3),
+            prop::collection::vec(prop_oneof![1 => Just(0u16), 3 => Just(1u16), 2 => Just(2u16), 2 => 3u16..5000], 3),
+            any::<bool>(),
+            any::<bool>(),
+        )
+            .prop_map(|(fees, d, order, n, fr, proceeds, reverse_payload, warm_up)| MultiCase {
+                fees,
+                deposits: [Uint128::new(d[0]), Uint128::new(d[1]), Uint128::new(d[2])],
+                loans: order.into_iter().take(n).zip(fr).collect(),
+                proceeds,
+                reverse_payload,
+                warm_up,
+            })
+            .boxed()
+    }
+    fn cases(&self, tier: Tier) -> u32 {
+        tier.pick(12_000, 800_000)
+    }
+    fn min_nontrivial(&self) -> f64 {
+        0.05
+    }
+    fn test(&self, c: &MultiCase, rec: &Rec) -> TResult {
+        use crate::ensure;
+        use crate::engine::Fail;
+        use crate::mocks::{purse_contract, PurseMsg};
+        use crate::refmath::{to_u128, u};
+        use crate::world::{asset, native, token, vault_fee, World};
+        use cosmwasm_std::{coin, to_json_binary, Addr, CosmosMsg, Empty, WasmMsg};
+        use white_whale_std::pool_network::asset::AssetInfo;
+        use white_whale_std::vault_network::{vault, vault_router};
+
+        const FUND: u128 = 1u128 << 100;
+        let mut w = World::new_with_fund(&["alice", "bob"], &["uaaa", "ubbb"], FUND);
+        w.setup_vault_network();
+        let tok = w.create_cw20_with_fund("tokv", 6, FUND);
+        let infos = [native("uaaa"), native("ubbb"), token(&tok)];
+        let router = w.vault_router.clone().unwrap();
+        let owner = w.owner.clone();
+        let alice = w.users[0].clone();
+        let bob = w.users[1].clone();
+        let pcode = w.app.store_code(purse_contract());
+        let purse = w.instantiate(pcode, &owner, &Empty {}, "purse", None).map_err(Fail::unobservable)?;
+        let mut vaults = vec![];
+        for i in 0..3 {
+            let f = [c.fees[i][0].u128(), c.fees[i][1].u128(), c.fees[i][2].u128()];
+            let (v, _lp) = w.create_vault(&infos[i], vault_fee(f)).map_err(|e| Fail::unobservable(format!("creating vault {i}: {e}")))?;
+            w.transfer(&owner, &purse, &infos[i], FUND / 4).map_err(Fail::unobservable)?;
+            let amt = c.deposits[i].u128();
+            let r = match &infos[i] {
+                AssetInfo::NativeToken { denom } => w.exec(&alice, &v, &vault::ExecuteMsg::Deposit { amount: Uint128::new(amt) }, &[coin(amt, denom)]),
+                AssetInfo::Token { contract_addr } => {
+                    w.increase_allowance(&alice, &Addr::unchecked(contract_addr), &v, amt);
+                    w.exec(&alice, &v, &vault::ExecuteMsg::Deposit { amount: Uint128::new(amt) }, &[])
+                }
+            };
+            r.map_err(|e| Fail::unobservable(format!("seeding vault {i}: {e}")))?;
+            vaults.push(v);
+        }
+        let pay = |info: &AssetInfo, amount: u128| -> CosmosMsg {
+            WasmMsg::Execute {
+                contract_addr: purse.to_string(),
+                msg: to_json_binary(&PurseMsg::Pay { asset: info.clone(), amount: Uint128::new(amount), to: router.to_string() }).unwrap(),
+                funds: vec![],
+            }
+            .into()
+        };
+        if c.warm_up {
+            for i in 0..3 {
+                let bal = w.bal(&infos[i], &vaults[i]);
+                let amt = bal / 3 + 1;
+                let _ = w.exec(&bob, &router, &vault_router::ExecuteMsg::FlashLoan { assets: vec![asset(&infos[i], amt)], msgs: vec![pay(&infos[i], amt)] }, &[]);
+            }
+            rec.class("after_warm_up_loans");
+        }
+        // the transaction under test
+        struct L {
+            i: usize,
+            amount: u128,
+            quote: vault::PaybackAmountResponse,
+            proceeds: u128,
+            bal0: u128,
+            pend0: u128,
+            burned0: u128,
+            supply0: u128,
+            user0: u128,
+        }
+        let pending = |w: &World, v: &Addr| -> Result<u128, Fail> {
+            let p: vault::ProtocolFeesResponse = w.query(v, &vault::QueryMsg::ProtocolFees { all_time: false }).map_err(Fail::new)?;
+            Ok(p.fees.amount.u128())
+        };
+        let burned = |w: &World, v: &Addr| -> Result<u128, Fail> {
+            let p: vault::ProtocolFeesResponse = w.query(v, &vault::QueryMsg::BurnedFees {}).map_err(Fail::new)?;
+            Ok(p.fees.amount.u128())
+        };
+        let mut ls: Vec<L> = vec![];
+        let mut all_covered = true;
+        for (n, (vi, fr)) in c.loans.iter().enumerate() {
+            let i = (*vi % 3) as usize;
+            if ls.iter().any(|l| l.i == i) {
+                continue;
+            }
+            let bal0 = w.bal(&infos[i], &vaults[i]);
+            let amount = gen::frac(*fr, bal0).max(1);
+            let quote: vault::PaybackAmountResponse = w.query(&vaults[i], &vault::QueryMsg::GetPaybackAmount { amount: Uint128::new(amount) }).map_err(Fail::new)?;
+            let fees_total = quote.payback_amount.u128() - amount;
+            let k = c.proceeds.get(n).copied().unwrap_or(1) as u128;
+            let proceeds = (fees_total + k).saturating_sub(1);
+            if proceeds < fees_total {
+                all_covered = false;
+            }
+            ls.push(L {
+                i,
+                amount,
+                quote,
+                proceeds,
+                bal0,
+                pend0: pending(&w, &vaults[i])?,
+                burned0: burned(&w, &vaults[i])?,
+                supply0: w.supply(&infos[i]),
+                user0: w.bal(&infos[i], &bob),
+            });
+        }
+        let mut msgs: Vec<CosmosMsg> = ls.iter().map(|l| pay(&infos[l.i], l.proceeds)).collect();
+        if c.reverse_payload {
+            msgs.reverse();
+        }
+        let mut assets: Vec<_> = ls.iter().map(|l| asset(&infos[l.i], l.amount)).collect();
+        // Several assets, second shape (`warm_up` doubles as the selector so that old cases still decode):
+        // the router refuses `assets.len() > 1`, but a borrower can reach the router's multi-asset
+        // settlement all the same — an ordinary loan on the first asset whose payload makes the router
+        // take a loan on the second vault with a hand-made NextLoan as callback, chaining the remaining
+        // assets; CompleteLoan then settles the chained assets together.
+        let chained = ls.len() >= 2 && (c.proceeds.iter().map(|p| *p as u32).sum::<u32>() % 2 == 0);
+        if chained {
+            let chain: Vec<(String, white_whale_std::pool_network::asset::Asset)> = ls[1..].iter().map(|l| (vaults[l.i].to_string(), asset(&infos[l.i], l.amount))).collect();
+            let mut inner: Vec<CosmosMsg> = ls[1..].iter().map(|l| pay(&infos[l.i], l.proceeds)).collect();
+            if c.reverse_payload {
+                inner.reverse();
+            }
+            let open_chain: CosmosMsg = WasmMsg::Execute {
+                contract_addr: vaults[ls[1].i].to_string(),
+                msg: to_json_binary(&vault::ExecuteMsg::FlashLoan {
+                    amount: Uint128::new(ls[1].amount),
+                    msg: to_json_binary(&vault_router::ExecuteMsg::NextLoan {
+                        initiator: bob.clone(),
+                        source_vault: vaults[ls[1].i].to_string(),
+                        source_vault_asset_info: infos[ls[1].i].clone(),
+                        payload: inner,
+                        to_loan: chain[1..].to_vec(),
+                        loaned_assets: chain.clone(),
+                    })
+                    .unwrap(),
+                })
+                .unwrap(),
+                funds: vec![],
+            }
+            .into();
+            msgs = vec![pay(&infos[ls[0].i], ls[0].proceeds), open_chain];
+            if c.reverse_payload {
+                msgs.reverse();
+            }
+            assets.truncate(1);
+        }
+        let snap = w.snapshot();
+        let r = w.exec(&bob, &router, &vault_router::ExecuteMsg::FlashLoan { assets, msgs }, &[]);
+        rec.class(&format!("loan_over_{}_assets_{}{}", ls.len(), if chained { "chained_in_the_payload_" } else { "" }, if r.is_ok() { "accepted" } else { "rejected" }));
+        match r {
+            Err(e) => {
+                let s2 = w.snapshot();
+                ensure!(s2 == snap, "a rejected router loan over {} assets changed the world: {}", ls.len(), snap.diff(&s2));
+                // The router of this code base refuses a loan naming more than one asset outright
+                // ("nested flash-loans are disabled"), which the statement allows (the transaction reverts);
+                // "the exact payback suffices" is therefore demanded of single-asset loans only.
+                if ls.len() >= 2 {
+                    rec.class(if chained { "chained_multi_asset_loan_rejected_world_unchanged" } else { "multi_asset_loan_refused_world_unchanged" });
+                } else {
+                    ensure!(!all_covered, "a router loan whose proceeds cover its fees exactly or better was rejected: {e}");
+                }
+            }
+            Ok(_) => {
+                ensure!(all_covered, "a router loan succeeded although the proceeds of one of its {} loans were one unit below that loan's fees", ls.len());
+                for l in &ls {
+                    let i = l.i;
+                    let q = l.quote.payback_amount.u128();
+                    let b = l.quote.burn_fee.u128();
+                    let p = l.quote.protocol_fee.u128();
+                    let bal1 = w.bal(&infos[i], &vaults[i]);
+                    ensure!(
+                        u(bal1) + u(l.amount) + u(b) == u(l.bal0) + u(q),
+                        "vault {i} (loan {} of {}): balance {} -> {bal1}, quoted payback {q} (burn {b}): the vault did not receive exactly the quote",
+                        l.amount,
+                        ls.len(),
+                        l.bal0
+                    );
+                    let want_p = to_u128(u(l.amount) * u(c.fees[i][0].u128()) / u(1_000_000_000_000_000_000)).unwrap();
+                    ensure!(p == want_p, "vault {i}: quoted protocol fee {p} is not floor(share*loan) = {want_p}");
+                    let pend1 = pending(&w, &vaults[i])?;
+                    ensure!(pend1 == l.pend0 + want_p, "vault {i}: pending ledger {} -> {pend1}, expected +{want_p}", l.pend0);
+                    let want_b = to_u128(u(l.amount) * u(c.fees[i][2].u128()) / u(1_000_000_000_000_000_000)).unwrap();
+                    ensure!(b == want_b, "vault {i}: quoted burn fee {b} is not floor(share*loan) = {want_b}");
+                    ensure!(burned(&w, &vaults[i])? == l.burned0 + want_b, "vault {i}: burned counter did not grow by {want_b}");
+                    ensure!(w.supply(&infos[i]) + want_b == l.supply0, "vault {i}: circulating supply {} -> {}, burn fee {want_b}", l.supply0, w.supply(&infos[i]));
+                    let lc: Option<u32> = w.raw(&vaults[i], b"loan_counter").and_then(|raw| serde_json::from_slice(&raw).ok());
+                    ensure!(lc == Some(0), "vault {i}: loan counter {lc:?} after the router loan");
+                    ensure!(w.bal(&infos[i], &router) == 0, "the vault router kept {} of asset {i}", w.bal(&infos[i], &router));
+                    let user1 = w.bal(&infos[i], &bob);
+                    ensure!(
+                        u(user1) + u(q) == u(l.user0) + u(l.amount) + u(l.proceeds),
+                        "asset {i}: initiator {} -> {user1} with proceeds {} and fees {}: the remaining proceeds were not forwarded in full",
+                        l.user0,
+                        l.proceeds,
+                        q - l.amount
+                    );
+                }
+                rec.nontrivial(hash_of(c));
+                rec.sample(c);
+            }
+        }
+        Ok(())
+    }
+}
+
 pub fn property() -> Property {
     Property {
         id: "C06",
-        checks: vec![Box::new(LoanPrograms), Box::new(LoanProgramsEnumerated)],
+        checks: vec![Box::new(LoanPrograms), Box::new(LoanProgramsEnumerated), Box::new(RouterMultiAsset)],
         assumptions: vec![
             "the adversary is a harness contract executing generated programs through the same message paths a real borrower has (bank/cw20 transfers, vault messages, sub-messages with reply-on-error)",
             "completed loans are taken from the program (every message of a successful transaction ran), fees from floor(share*loan) computed by the harness, never from contract attributes",
